@@ -43,6 +43,7 @@ class SimFile(object):
             return len(text)
         self.buf.append(text)
         self.fs.written.append((self.fs.nops - 1, self.path, text))
+        self.fs.written_times.append((getattr(self.fs, "deaths", 0), self.fs.clock() if self.fs.clock else None, self.fs.nops - 1, self.path, text))
         return len(text)
 
     def flush(self):
@@ -153,6 +154,8 @@ class SimFS(object):
         self.renames = 0
         self.clock = None          # optional callable: simulated time of the running process (set by the harness)
         self.fsync_times = []      # (number of deaths so far, simulated time, path) per completed fsync
+        self.fsync_ops = []        # (number of deaths so far, simulated time, op index, path) per completed fsync
+        self.written_times = []    # (number of deaths so far, simulated time, op index, path, text) per accepted write
 
     def op(self, name, *args):
         """Every file-system call is a potential death point."""
@@ -253,6 +256,7 @@ class SimFS(object):
                     break
         self.fsync_log.append((self.nops - 1, path))
         self.fsync_times.append((getattr(self, "deaths", 0), self.clock() if self.clock else None, path))
+        self.fsync_ops.append((getattr(self, "deaths", 0), self.clock() if self.clock else None, self.nops - 1, path))
         self.fsyncs += 1
 
     def close(self, fd):
